@@ -265,3 +265,929 @@ Qed.
 
 Lemma stops_tab : stops 10 (9 :: []) /\ forall r, stops 10 (9 :: r).
 Proof. split; [reflexivity|intros r; reflexivity]. Qed.
+
+(* ========================================================================================== *)
+(** * B. Field splitting and the record round trip *)
+
+Lemma split_tab_no s : no_byte 9 s = true -> split_tab s = None.
+Proof.
+  induction s as [|c s IH]; [reflexivity|].
+  rewrite no_byte_cons. intros H. cbn [split_tab].
+  destruct (N.eqb_spec c 9) as [?|_]; [lia|]. rewrite IH by lia. reflexivity.
+Qed.
+
+Lemma split_tab_app a b : no_byte 9 a = true -> split_tab (a ++ 9 :: b) = Some (a, b).
+Proof.
+  induction a as [|c a IH]; [reflexivity|].
+  rewrite no_byte_cons. intros H. cbn [app split_tab].
+  destruct (N.eqb_spec c 9) as [?|_]; [lia|]. rewrite IH by lia. reflexivity.
+Qed.
+
+Lemma split_tab_app_no a b :
+  no_byte 9 a = true ->
+  split_tab (a ++ b) = match split_tab b with Some (x, y) => Some (a ++ x, y) | None => None end.
+Proof.
+  induction a as [|c a IH]; [intros _; cbn [app]; destruct (split_tab b) as [[x y]|]; reflexivity|].
+  rewrite no_byte_cons. intros H. cbn [app split_tab].
+  destruct (N.eqb_spec c 9) as [?|_]; [lia|]. rewrite IH by lia.
+  destruct (split_tab b) as [[x y]|]; reflexivity.
+Qed.
+
+Lemma c_str_id s : no_byte 0 s = true -> c_str s = s.
+Proof.
+  induction s as [|c s IH]; [reflexivity|].
+  rewrite no_byte_cons. intros H. cbn [c_str].
+  destruct (N.eqb_spec c 0) as [?|_]; [lia|]. rewrite IH by lia. reflexivity.
+Qed.
+
+Lemma c_str_no_byte b s : no_byte b s = true -> no_byte b (c_str s) = true.
+Proof.
+  induction s as [|c s IH]; [reflexivity|].
+  rewrite no_byte_cons. intros H. cbn [c_str].
+  destruct (c =? 0); [reflexivity|]. rewrite no_byte_cons, IH by lia. lia.
+Qed.
+
+Lemma wf_entry_inv e :
+  wf_entry e ->
+  e_out e <> [] /\ no_byte 0 (e_out e) = true /\ no_byte 9 (e_out e) = true /\
+  no_byte 10 (e_out e) = true /\ in_int32 (e_start e) = true /\ in_int32 (e_end e) = true /\
+  in_int64 (e_mtime e) = true /\ e_hash e < 18446744073709551616.
+Proof.
+  unfold wf_entry, wf_entryb. rewrite !andb_true_iff. intros H.
+  destruct H as (((((((H1 & H2) & H3) & H4) & H5) & H6) & H7) & H8).
+  repeat split; try assumption; [|lia].
+  intros Heq. rewrite Heq in H1. discriminate.
+Qed.
+
+Lemma atoi_print0 z : in_int32 z = true -> c_atoi (print_dec_Z z) = z.
+Proof. intros H. rewrite <- (app_nil_r (print_dec_Z z)). apply atoi_print; [assumption|exact I]. Qed.
+
+Lemma strtoll_print0 z : in_int64 z = true -> c_strtoll (print_dec_Z z) = z.
+Proof. intros H. rewrite <- (app_nil_r (print_dec_Z z)). apply strtoll_print; [assumption|exact I]. Qed.
+
+Lemma parse_render e : wf_entry e -> parse_line (render_body e) = Some e.
+Proof.
+  intros Hwf. destruct (wf_entry_inv e Hwf) as (_ & H0 & H9 & _ & Hs & He & Hm & Hh).
+  unfold parse_line, render_body.
+  rewrite split_tab_app by (apply print_dec_Z_no_byte; lia).
+  rewrite split_tab_app by (apply print_dec_Z_no_byte; lia).
+  rewrite split_tab_app by (apply print_dec_Z_no_byte; lia).
+  rewrite c_str_id by assumption.
+  rewrite split_tab_app by assumption.
+  rewrite !atoi_print0, strtoll_print0, strtoull16_print by assumption.
+  destruct e; reflexivity.
+Qed.
+
+Lemma render_body_no_nl e : no_byte 10 (e_out e) = true -> no_byte 10 (render_body e) = true.
+Proof.
+  intros H. unfold render_body.
+  repeat (rewrite no_byte_app || rewrite no_byte_cons).
+  rewrite !print_dec_Z_no_byte by lia. rewrite print_hex_no_byte by lia.
+  rewrite c_str_no_byte by assumption. reflexivity.
+Qed.
+
+(* ========================================================================================== *)
+(** * C. LineReader on files whose lines fit the buffer *)
+
+Lemma find_byte_none b (s : bytes) : no_byte b s = true -> find_byte b s = None.
+Proof.
+  induction s as [|c s IH]; [reflexivity|].
+  rewrite no_byte_cons. intros H. cbn [find_byte].
+  destruct (N.eqb_spec c b) as [?|_]; [lia|]. rewrite IH by lia. reflexivity.
+Qed.
+
+Lemma find_byte_app b (l r : bytes) : no_byte b l = true -> find_byte b (l ++ b :: r) = Some (length l).
+Proof.
+  induction l as [|c l IH]; [intros _; cbn [app find_byte]; rewrite N.eqb_refl; reflexivity|].
+  rewrite no_byte_cons. intros H. cbn [app find_byte length].
+  destruct (N.eqb_spec c b) as [?|_]; [lia|]. rewrite IH by lia. reflexivity.
+Qed.
+
+Lemma find_byte_prefix (P : bytes) : forall (Q l R' : bytes) j,
+  find_byte 10 P = Some j -> P ++ Q = l ++ 10 :: R' -> no_byte 10 l = true ->
+  j = length l /\ firstn j P = l /\ skipn (S j) P ++ Q = R' /\ (j < length P)%nat.
+Proof.
+  induction P as [|c P IH]; intros Q l R' j Hf Heq Hl; [discriminate|].
+  cbn [find_byte] in Hf. destruct (N.eqb_spec c 10) as [->|Hc].
+  - injection Hf as <-. destruct l as [|c' l].
+    + cbn [app] in Heq. injection Heq as Heq. cbn [length firstn skipn]. repeat split; [assumption|lia].
+    + cbn [app] in Heq. injection Heq as <- _. rewrite no_byte_cons in Hl. lia.
+  - destruct (find_byte 10 P) as [j'|] eqn:Hf'; [|discriminate]. injection Hf as <-.
+    destruct l as [|c' l].
+    + cbn [app] in Heq. injection Heq as Hcc _. congruence.
+    + cbn [app] in Heq. injection Heq as <- Heq. rewrite no_byte_cons in Hl.
+      destruct (IH Q l R' j' eq_refl Heq ltac:(lia)) as (H1 & H2 & H3 & H4).
+      cbn [length]. repeat split; [lia| |exact H3|lia].
+      cbn [firstn]. rewrite H2. reflexivity.
+Qed.
+
+Lemma firstn_line B (l R' : bytes) :
+  (length l < B)%nat -> firstn B (l ++ 10 :: R') = l ++ 10 :: firstn (B - S (length l)) R'.
+Proof.
+  intros H. rewrite firstn_app, firstn_all2 by lia.
+  replace (B - length l)%nat with (S (B - S (length l))) by lia. reflexivity.
+Qed.
+
+(* the logical remainder of the stream, for the two kinds of reader states *)
+Definition st_init (st : lr_state) (R : bytes) : Prop :=
+  (lr_cur st = [] \/ lr_le st = None) /\ lr_rest st = R.
+
+Definition st_some (B : nat) (st : lr_state) (R : bytes) : Prop :=
+  exists i, lr_le st = Some i /\ (i < length (lr_cur st))%nat /\
+            R = skipn (S i) (lr_cur st) ++ lr_rest st /\ (length (lr_cur st) <= B)%nat.
+
+Lemma read_line_init_nil B st : st_init st [] -> read_line B st = None.
+Proof.
+  intros [Hc Hr]. unfold read_line. rewrite Hr.
+  destruct Hc as [Hc|Hc]; rewrite Hc.
+  - rewrite firstn_nil. reflexivity.
+  - rewrite firstn_nil. destruct (lr_cur st); reflexivity.
+Qed.
+
+Lemma read_line_init B st (R : bytes) :
+  (0 < B)%nat -> st_init st R -> R <> [] ->
+  read_line B st =
+  Some {| lr_cur := firstn B R; lr_le := find_byte 10 (firstn B R); lr_rest := skipn B R |}.
+Proof.
+  intros HB [Hc Hr] Hne. unfold read_line. rewrite Hr.
+  assert (Hfirst : match lr_cur st, lr_le st with
+                   | _ :: _, Some i => Some (skipn (S i) (lr_cur st), R)
+                   | _, _ => match firstn B R with
+                             | [] => None
+                             | chunk => Some (chunk, skipn B R)
+                             end
+                   end = Some (firstn B R, skipn B R)).
+  { assert (Hch : firstn B R <> []).
+    { destruct R as [|c R]; [congruence|]. destruct B as [|B]; [lia|]. discriminate. }
+    destruct Hc as [Hc|Hc]; rewrite Hc.
+    - destruct (firstn B R); [congruence|reflexivity].
+    - destruct (lr_cur st); destruct (firstn B R); try congruence; reflexivity. }
+  rewrite Hfirst.
+  destruct (find_byte 10 (firstn B R)) as [i|] eqn:Hf; [reflexivity|].
+  assert (Hfill : firstn (B - length (firstn B R)) (skipn B R) = [] /\
+                  skipn (B - length (firstn B R)) (skipn B R) = skipn B R).
+  { rewrite firstn_length. destruct (Nat.le_ge_cases B (length R)) as [Hle|Hge].
+    - replace (B - Nat.min B (length R))%nat with 0%nat by lia. split; reflexivity.
+    - rewrite (skipn_all2 R) by lia. rewrite firstn_nil, skipn_nil. split; reflexivity. }
+  destruct Hfill as [-> ->]. rewrite app_nil_r, Hf. reflexivity.
+Qed.
+
+Lemma read_line_some B st (R : bytes) :
+  st_some B st R ->
+  exists P Q, read_line B st = Some {| lr_cur := P; lr_le := find_byte 10 P; lr_rest := Q |} /\
+              P ++ Q = R /\ (length P <= B)%nat /\
+              (find_byte 10 P = None -> P = firstn B R /\ Q = skipn B R).
+Proof.
+  intros (i & Hle & Hi & HR & Hlen). unfold read_line. rewrite Hle.
+  destruct (lr_cur st) as [|c0 cur0] eqn:Hcur; [cbn in Hi; lia|]. rewrite <- Hcur in *.
+  set (cur1 := skipn (S i) (lr_cur st)) in *.
+  assert (Hl1 : (length cur1 <= B)%nat) by (unfold cur1; rewrite skipn_length; lia).
+  destruct (find_byte 10 cur1) as [j|] eqn:Hf.
+  - exists cur1, (lr_rest st). rewrite Hf.
+    split; [reflexivity|]. split; [symmetry; assumption|]. split; [assumption|discriminate].
+  - exists (cur1 ++ firstn (B - length cur1) (lr_rest st)), (skipn (B - length cur1) (lr_rest st)).
+    assert (HP : cur1 ++ firstn (B - length cur1) (lr_rest st) = firstn B R).
+    { rewrite HR, firstn_app, (firstn_all2 cur1) by lia. reflexivity. }
+    assert (HQ : skipn (B - length cur1) (lr_rest st) = skipn B R).
+    { rewrite HR, skipn_app, (skipn_all2 cur1) by lia. reflexivity. }
+    split; [reflexivity|]. split; [|split; [|intros _; split; assumption]].
+    + rewrite <- app_assoc, firstn_skipn. symmetry; assumption.
+    + rewrite HP, firstn_length. lia.
+Qed.
+
+Definition st_ok (B : nat) (st : lr_state) (R : bytes) : Prop :=
+  (st_init st R /\ R <> []) \/ st_some B st R.
+
+(* one ReadLine on a stream that starts with a complete short line *)
+Lemma read_line_line B st (l R' : bytes) :
+  (0 < B)%nat -> st_ok B st (l ++ 10 :: R') -> no_byte 10 l = true -> (length l < B)%nat ->
+  exists st', read_line B st = Some st' /\ lr_le st' = Some (length l) /\
+              firstn (length l) (lr_cur st') = l /\ st_some B st' R' /\
+              (st_init st (l ++ 10 :: R') -> lr_cur st' = firstn B (l ++ 10 :: R')).
+Proof.
+  intros HB Hok Hl Hlen.
+  assert (Hfind : find_byte 10 (firstn B (l ++ 10 :: R')) = Some (length l)).
+  { rewrite firstn_line by assumption. apply find_byte_app; assumption. }
+  assert (Hgen : forall P Q : bytes, P ++ Q = l ++ 10 :: R' -> (length P <= B)%nat ->
+                 find_byte 10 P = Some (length l) ->
+                 firstn (length l) P = l /\
+                 st_some B {| lr_cur := P; lr_le := find_byte 10 P; lr_rest := Q |} R').
+  { intros P Q HPQ HPB Hf.
+    destruct (find_byte_prefix P Q l R' (length l) Hf HPQ Hl) as (_ & H2 & H3 & H4).
+    split; [assumption|]. exists (length l). cbn [lr_cur lr_le lr_rest].
+    repeat split; [assumption|assumption|symmetry; assumption|assumption]. }
+  destruct Hok as [[Hinit Hne]|Hsome].
+  - rewrite (read_line_init B st _ HB Hinit Hne). eexists. split; [reflexivity|].
+    cbn [lr_cur lr_le lr_rest].
+    destruct (Hgen (firstn B (l ++ 10 :: R')) (skipn B (l ++ 10 :: R'))) as [G1 G2].
+    { apply firstn_skipn. } { rewrite firstn_length; lia. } { assumption. }
+    repeat split; [assumption|assumption|assumption].
+  - destruct (read_line_some B st _ Hsome) as (P & Q & Hrd & HPQ & HPB & Hnone).
+    assert (Hf : find_byte 10 P = Some (length l)).
+    { destruct (find_byte 10 P) as [j|] eqn:Hf.
+      - destruct (find_byte_prefix P Q l R' j Hf HPQ Hl) as (-> & _). reflexivity.
+      - destruct (Hnone eq_refl) as [HP _]. unfold bytes, byte in *. congruence. }
+    rewrite Hrd. eexists. split; [reflexivity|]. cbn [lr_cur lr_le lr_rest].
+    destruct (Hgen P Q HPQ HPB Hf) as [G1 G2].
+    repeat split; [assumption|assumption|assumption|].
+    intros [Hc _]. destruct Hsome as (i & Hle & Hi & _).
+    destruct Hc as [Hc|Hc]; [rewrite Hc in Hi; cbn in Hi; lia|congruence].
+Qed.
+
+(* one ReadLine on a final fragment without newline: returned with line_end = NULL, then EOF *)
+Lemma read_line_frag B st (frag : bytes) :
+  (0 < B)%nat -> st_ok B st frag -> no_byte 10 frag = true -> (length frag <= B)%nat ->
+  exists st', read_line B st = Some st' /\ lr_le st' = None /\ lr_cur st' = frag /\
+              read_line B st' = None.
+Proof.
+  intros HB Hok Hnl Hlen.
+  assert (Hfn : firstn B frag = frag) by (apply firstn_all2; lia).
+  assert (Hsk : skipn B frag = []) by (apply skipn_all2; lia).
+  assert (Hend : read_line B {| lr_cur := frag; lr_le := None; lr_rest := [] |} = None).
+  { apply read_line_init_nil. split; [right|]; reflexivity. }
+  destruct Hok as [[Hinit Hne]|Hsome].
+  - rewrite (read_line_init B st _ HB Hinit Hne). rewrite Hfn, Hsk, (find_byte_none 10 frag Hnl).
+    eexists. split; [reflexivity|]. cbn [lr_cur lr_le]. repeat split. assumption.
+  - destruct (read_line_some B st _ Hsome) as (P & Q & Hrd & HPQ & HPB & Hnone).
+    assert (Hf : find_byte 10 P = None).
+    { apply find_byte_none. rewrite <- HPQ, no_byte_app in Hnl. lia. }
+    destruct (Hnone Hf) as [HP HQ]. rewrite Hfn in HP. rewrite Hsk in HQ. subst P Q.
+    rewrite Hrd, Hf. eexists. split; [reflexivity|]. cbn [lr_cur lr_le]. repeat split. assumption.
+Qed.
+
+(* ---- the load loop on short lines ---- *)
+
+Definition join_lines (lines : list bytes) : bytes := concat (map (fun l => l ++ [10]) lines).
+
+Definition short_line (B : nat) (l : bytes) : Prop := no_byte 10 l = true /\ (length l < B)%nat.
+
+Lemma join_lines_cons l ls rest :
+  join_lines (l :: ls) ++ rest = l ++ 10 :: (join_lines ls ++ rest).
+Proof. unfold join_lines. cbn [map concat]. rewrite <- !app_assoc. reflexivity. Qed.
+
+Lemma join_lines_app a b : join_lines (a ++ b) = join_lines a ++ join_lines b.
+Proof. unfold join_lines. rewrite map_app, concat_app. reflexivity. Qed.
+
+Lemma length_join_lines lines : (length lines <= length (join_lines lines))%nat.
+Proof.
+  induction lines as [|l ls IH]; [cbn; lia|].
+  unfold join_lines in *. cbn [map concat length]. rewrite !app_length. cbn [length]. unfold bytes, byte in *. lia.
+Qed.
+
+Lemma load_loop_S B fuel seen ver st acc :
+  load_loop B (S fuel) seen ver st acc =
+  match read_line B st with
+  | None => load_finish seen ver acc
+  | Some st' =>
+    let ver' := if (ver =? 0)%Z then scan_signature (lr_cur st') else ver in
+    if (ver =? 0)%Z && (ver' <? oldest_supported_version)%Z then LDiscard true true
+    else if (ver =? 0)%Z && (current_version <? ver')%Z then LDiscard false true
+    else
+      match lr_le st' with
+      | None => load_loop B fuel true ver' st' acc
+      | Some i => load_loop B fuel true ver' st' (load_step acc (firstn i (lr_cur st')))
+      end
+  end.
+Proof. reflexivity. Qed.
+
+Lemma loop_lines B : (0 < B)%nat -> forall lines fuel st acc ver frag,
+  ver <> 0%Z -> st_some B st (join_lines lines ++ frag) ->
+  Forall (short_line B) lines -> no_byte 10 frag = true -> (length frag <= B)%nat ->
+  (length lines + 2 <= fuel)%nat ->
+  load_loop B fuel true ver st acc = load_finish true ver (fold_left load_step lines acc).
+Proof.
+  intros HB lines. induction lines as [|l ls IH]; intros fuel st acc ver frag Hv Hst Hsh Hnl Hlen Hfuel.
+  - destruct fuel as [|[|fuel]]; [cbn in Hfuel; lia|cbn in Hfuel; lia|].
+    cbn [join_lines map concat app] in Hst.
+    destruct (read_line_frag B st frag HB (or_intror Hst) Hnl Hlen) as (st' & Hrd & Hle & _ & Hend).
+    rewrite load_loop_S, Hrd. cbn zeta.
+    destruct (Z.eqb_spec ver 0) as [?|_]; [contradiction|]. cbn [andb].
+    rewrite Hle, load_loop_S, Hend. reflexivity.
+  - destruct fuel as [|fuel]; [cbn in Hfuel; lia|].
+    rewrite join_lines_cons in Hst. inversion Hsh as [|? ? [Hl1 Hl2] Hsh']; subst.
+    destruct (read_line_line B st l _ HB (or_intror Hst) Hl1 Hl2)
+      as (st' & Hrd & Hle & Hcur & Hst' & _).
+    rewrite load_loop_S, Hrd. cbn zeta.
+    destruct (Z.eqb_spec ver 0) as [?|_]; [contradiction|]. cbn [andb].
+    rewrite Hle, Hcur. cbn [fold_left].
+    apply (IH fuel st' (load_step acc l) ver frag); try assumption. cbn [length] in Hfuel. lia.
+Qed.
+
+Definition load_spec_res (ver : Z) (acc : load_acc) : load_res :=
+  if (ver <? oldest_supported_version)%Z then LDiscard true true
+  else if (current_version <? ver)%Z then LDiscard false true
+  else load_finish true ver acc.
+
+Lemma match_nonempty {A} (x : bytes) (a b : A) :
+  x <> [] -> match x with [] => a | _ :: _ => b end = b.
+Proof. destruct x; [congruence|reflexivity]. Qed.
+
+(* The loader on a file all of whose lines fit the buffer: version from sscanf on the first
+   buffer-full, then a fold over the complete lines; the final unterminated chunk is ignored. *)
+Theorem load_short_lines B lines frag :
+  (0 < B)%nat -> Forall (short_line B) lines -> no_byte 10 frag = true -> (length frag <= B)%nat ->
+  load_log_buf B (join_lines lines ++ frag) =
+  match join_lines lines ++ frag with
+  | [] => LOk [] false
+  | _ :: _ => load_spec_res (scan_signature (firstn B (join_lines lines ++ frag)))
+                            (fold_left load_step lines la_empty)
+  end.
+Proof.
+  intros HB Hsh Hnl Hlen. unfold load_log_buf.
+  destruct lines as [|l ls].
+  - cbn [join_lines map concat app]. destruct frag as [|c f].
+    + rewrite load_loop_S. rewrite read_line_init_nil; [reflexivity|].
+      split; [left|]; reflexivity.
+    + assert (Hok : st_ok B (lr_init (c :: f)) (c :: f)).
+      { left. split; [split; [left|]; reflexivity|discriminate]. }
+      destruct (read_line_frag B _ _ HB Hok Hnl Hlen) as (st' & Hrd & Hle & Hcur & Hend).
+      rewrite load_loop_S, Hrd. cbn zeta. change (0 =? 0)%Z with true. cbn [andb].
+      rewrite Hcur, (firstn_all2 (c :: f)) by lia.
+      unfold load_spec_res.
+      destruct (scan_signature (c :: f) <? oldest_supported_version)%Z; [reflexivity|].
+      destruct (current_version <? scan_signature (c :: f))%Z; [reflexivity|].
+      rewrite Hle, load_loop_S, Hend. reflexivity.
+  - rewrite join_lines_cons. inversion Hsh as [|? ? [Hl1 Hl2] Hsh']; subst.
+    set (R' := join_lines ls ++ frag).
+    assert (Hinit : st_init (lr_init (l ++ 10 :: R')) (l ++ 10 :: R')).
+    { split; [left|]; reflexivity. }
+    assert (Hok : st_ok B (lr_init (l ++ 10 :: R')) (l ++ 10 :: R')).
+    { left. split; [assumption|]. destruct l; discriminate. }
+    destruct (read_line_line B _ l R' HB Hok Hl1 Hl2) as (st' & Hrd & Hle & Hcur & Hst' & Hfirst).
+    rewrite match_nonempty by (destruct l; discriminate).
+    rewrite load_loop_S, Hrd. cbn zeta. change (0 =? 0)%Z with true. cbn [andb].
+    rewrite Hle. cbn beta iota. rewrite Hcur, (Hfirst Hinit). unfold load_spec_res.
+    generalize (scan_signature (firstn B (l ++ 10 :: R'))). intros ver.
+    destruct (Z.ltb_spec ver oldest_supported_version) as [?|Hv1]; [reflexivity|].
+    destruct (current_version <? ver)%Z; [reflexivity|].
+    apply (loop_lines B HB ls _ st' (load_step la_empty l) ver frag); try assumption.
+    + unfold oldest_supported_version in Hv1. lia.
+    + rewrite app_length. cbn [length]. unfold R'. rewrite app_length.
+      pose proof (length_join_lines ls). lia.
+Qed.
+
+(* ========================================================================================== *)
+(** * D. The entry table: upsert, last_wins, lookup *)
+
+Definition upsert_all (es l : list entry) : list entry := fold_left (fun acc e => upsert e acc) es l.
+
+Lemma has_out_lookup n l :
+  has_out n l = match lookup_out n l with Some _ => true | None => false end.
+Proof.
+  induction l as [|x l IH]; [reflexivity|]. cbn [has_out lookup_out].
+  destruct (bytes_eqb (e_out x) n); [reflexivity|]. exact IH.
+Qed.
+
+Lemma length_replace_out e l : length (replace_out e l) = length l.
+Proof.
+  induction l as [|x l IH]; [reflexivity|]. cbn [replace_out].
+  destruct (bytes_eqb (e_out x) (e_out e)); cbn [length]; [reflexivity|]. rewrite IH. reflexivity.
+Qed.
+
+Lemma length_upsert e l :
+  length (upsert e l) = if has_out (e_out e) l then length l else S (length l).
+Proof.
+  unfold upsert. destruct (has_out (e_out e) l).
+  - apply length_replace_out.
+  - rewrite app_length. cbn [length]. lia.
+Qed.
+
+Lemma bytes_eqb_sym a b : bytes_eqb a b = bytes_eqb b a.
+Proof.
+  destruct (bytes_eqb_spec a b) as [->|Hne].
+  - symmetry. apply bytes_eqb_refl.
+  - destruct (bytes_eqb_spec b a) as [->|_]; [congruence|reflexivity].
+Qed.
+
+Lemma bytes_eqb_trans_l a b c : bytes_eqb a b = true -> bytes_eqb a c = bytes_eqb b c.
+Proof. intros H. apply bytes_eqb_eq in H. subst. reflexivity. Qed.
+
+Lemma lookup_out_app n l1 l2 :
+  lookup_out n (l1 ++ l2) =
+  match lookup_out n l1 with Some x => Some x | None => lookup_out n l2 end.
+Proof.
+  induction l1 as [|x l1 IH]; [reflexivity|]. cbn [app lookup_out].
+  destruct (bytes_eqb (e_out x) n); [reflexivity|exact IH].
+Qed.
+
+Lemma lookup_replace_out n e l :
+  has_out (e_out e) l = true ->
+  lookup_out n (replace_out e l) = if bytes_eqb (e_out e) n then Some e else lookup_out n l.
+Proof.
+  induction l as [|x l IH]; [discriminate|]. cbn [has_out replace_out lookup_out].
+  destruct (bytes_eqb (e_out x) (e_out e)) eqn:Hx.
+  - intros _. cbn [lookup_out]. rewrite (bytes_eqb_trans_l _ _ n Hx).
+    destruct (bytes_eqb (e_out e) n); reflexivity.
+  - cbn [orb]. intros Hh. cbn [lookup_out]. rewrite IH by assumption.
+    destruct (bytes_eqb (e_out x) n) eqn:Hxn; [|reflexivity].
+    destruct (bytes_eqb (e_out e) n) eqn:Hen; [|reflexivity].
+    apply bytes_eqb_eq in Hxn. apply bytes_eqb_eq in Hen.
+    rewrite Hxn, <- Hen, bytes_eqb_refl in Hx. discriminate.
+Qed.
+
+Lemma lookup_upsert n e l :
+  lookup_out n (upsert e l) = if bytes_eqb (e_out e) n then Some e else lookup_out n l.
+Proof.
+  unfold upsert. destruct (has_out (e_out e) l) eqn:Hh.
+  - apply lookup_replace_out; assumption.
+  - rewrite lookup_out_app. cbn [lookup_out].
+    destruct (bytes_eqb (e_out e) n) eqn:Hen.
+    + apply bytes_eqb_eq in Hen. subst n. rewrite has_out_lookup in Hh.
+      destruct (lookup_out (e_out e) l); [discriminate|reflexivity].
+    + destruct (lookup_out n l); reflexivity.
+Qed.
+
+Lemma lookup_upsert_all n es : forall l,
+  lookup_out n (upsert_all es l) =
+  match lookup_out n (rev es) with Some x => Some x | None => lookup_out n l end.
+Proof.
+  induction es as [|e es IH]; intros l; [reflexivity|].
+  cbn [upsert_all fold_left rev]. fold (upsert_all es (upsert e l)).
+  rewrite IH, lookup_out_app, lookup_upsert. cbn [lookup_out].
+  destruct (lookup_out n (rev es)); [reflexivity|].
+  destruct (bytes_eqb (e_out e) n); reflexivity.
+Qed.
+
+Lemma lookup_last_wins n es : lookup_out n (last_wins es) = latest n es.
+Proof.
+  unfold last_wins, latest. fold (upsert_all es []). rewrite lookup_upsert_all. cbn [lookup_out].
+  destruct (lookup_out n (rev es)); reflexivity.
+Qed.
+
+(* output names are unique in the table *)
+Definition nodup_out (l : list entry) : Prop := NoDup (map e_out l).
+
+Lemma has_out_In n l : has_out n l = true <-> In n (map e_out l).
+Proof.
+  induction l as [|x l IH]; cbn [has_out map In]; [split; [discriminate|tauto]|].
+  rewrite orb_true_iff, IH, bytes_eqb_eq. tauto.
+Qed.
+
+Lemma map_out_replace e l : map e_out (replace_out e l) = map e_out l.
+Proof.
+  induction l as [|x l IH]; [reflexivity|]. cbn [replace_out].
+  destruct (bytes_eqb (e_out x) (e_out e)) eqn:Hx; cbn [map].
+  - apply bytes_eqb_eq in Hx. rewrite Hx. reflexivity.
+  - rewrite IH. reflexivity.
+Qed.
+
+Lemma NoDup_snoc {A} (l : list A) a : NoDup l -> ~ In a l -> NoDup (l ++ [a]).
+Proof.
+  intros H1 H2. apply (NoDup_Add (Add_app a l [])). rewrite app_nil_r. split; assumption.
+Qed.
+
+Lemma nodup_upsert e l : nodup_out l -> nodup_out (upsert e l).
+Proof.
+  unfold nodup_out, upsert. intros H. destruct (has_out (e_out e) l) eqn:Hh.
+  - rewrite map_out_replace. assumption.
+  - rewrite map_app. cbn [map]. apply NoDup_snoc; [assumption|].
+    intros Hin. apply has_out_In in Hin. congruence.
+Qed.
+
+Lemma nodup_upsert_all es : forall l, nodup_out l -> nodup_out (upsert_all es l).
+Proof.
+  induction es as [|e es IH]; intros l H; [assumption|].
+  cbn [upsert_all fold_left]. apply IH, nodup_upsert, H.
+Qed.
+
+Lemma nodup_last_wins es : nodup_out (last_wins es).
+Proof. apply nodup_upsert_all. constructor. Qed.
+
+Lemma lookup_In_nodup y l : nodup_out l -> In y l -> lookup_out (e_out y) l = Some y.
+Proof.
+  unfold nodup_out. induction l as [|x l IH]; intros Hnd Hin; [destruct Hin|].
+  cbn [map] in Hnd. inversion Hnd as [|? ? Hnotin Hnd']; subst.
+  cbn [lookup_out]. destruct Hin as [->|Hin].
+  - rewrite bytes_eqb_refl. reflexivity.
+  - destruct (bytes_eqb_spec (e_out x) (e_out y)) as [Heq|_]; [|apply IH; assumption].
+    exfalso. apply Hnotin. rewrite Heq. apply in_map. assumption.
+Qed.
+
+Lemma lookup_out_In n l x : lookup_out n l = Some x -> In x l /\ e_out x = n.
+Proof.
+  induction l as [|y l IH]; [discriminate|]. cbn [lookup_out].
+  destruct (bytes_eqb_spec (e_out y) n) as [Heq|_].
+  - intros [= <-]. split; [left; reflexivity|assumption].
+  - intros H. destruct (IH H) as [H1 H2]. split; [right; assumption|assumption].
+Qed.
+
+(* every entry of the table is the latest record of its output *)
+Lemma In_last_wins_latest y es : In y (last_wins es) -> latest (e_out y) es = Some y.
+Proof.
+  intros H. rewrite <- lookup_last_wins. apply lookup_In_nodup; [apply nodup_last_wins|assumption].
+Qed.
+
+Lemma latest_In n es x : latest n es = Some x -> In x es /\ e_out x = n.
+Proof.
+  unfold latest. intros H. apply lookup_out_In in H. destruct H as [H1 H2].
+  split; [apply in_rev; assumption|assumption].
+Qed.
+
+(* with pairwise distinct outputs nothing is overwritten *)
+Lemma upsert_all_nodup es : forall l, nodup_out (l ++ es) -> upsert_all es l = l ++ es.
+Proof.
+  induction es as [|e es IH]; intros l H; [symmetry; apply app_nil_r|].
+  cbn [upsert_all fold_left]. fold (upsert_all es (upsert e l)).
+  assert (Hh : has_out (e_out e) l = false).
+  { destruct (has_out (e_out e) l) eqn:Hh; [|reflexivity]. exfalso.
+    apply has_out_In in Hh. unfold nodup_out in H. rewrite map_app in H. cbn [map] in H.
+    apply NoDup_remove_2 in H. apply H. apply in_or_app. left. assumption. }
+  unfold upsert at 1. rewrite Hh. rewrite IH.
+  - rewrite <- app_assoc. reflexivity.
+  - rewrite <- app_assoc. exact H.
+Qed.
+
+Lemma last_wins_nodup l : nodup_out l -> last_wins l = l.
+Proof. intros H. apply (upsert_all_nodup l []). exact H. Qed.
+
+Lemma nodup_filter f l : nodup_out l -> nodup_out (filter f l).
+Proof.
+  unfold nodup_out. induction l as [|x l IH]; intros H; [constructor|].
+  cbn [map] in H. inversion H as [|? ? Hnotin Hnd]; subst. cbn [filter].
+  destruct (f x); [|apply IH; assumption].
+  cbn [map]. constructor; [|apply IH; assumption].
+  intros Hin. apply Hnotin. apply in_map_iff in Hin. destruct Hin as (y & Hy & Hin).
+  apply filter_In in Hin. rewrite <- Hy. apply in_map. tauto.
+Qed.
+
+(* ---- the fold of load_step over lines that parse ---- *)
+
+Definition acc_of (l : list entry) (t : N) : load_acc :=
+  {| la_entries := l; la_unique := N.of_nat (length l); la_total := t |}.
+
+Lemma load_step_some l t line e :
+  parse_line line = Some e -> load_step (acc_of l t) line = acc_of (upsert e l) (t + 1).
+Proof.
+  intros Hp. unfold load_step, acc_of. rewrite Hp. cbn [la_entries la_unique la_total].
+  rewrite length_upsert. destruct (has_out (e_out e) l); f_equal; lia.
+Qed.
+
+Lemma load_step_none acc line : parse_line line = None -> load_step acc line = acc.
+Proof. intros Hp. unfold load_step. rewrite Hp. reflexivity. Qed.
+
+Lemma fold_load_step lines : forall ents l t,
+  Forall2 (fun line e => parse_line line = Some e) lines ents ->
+  fold_left load_step lines (acc_of l t) = acc_of (upsert_all ents l) (t + N.of_nat (length ents)).
+Proof.
+  induction lines as [|line lines IH]; intros ents l t H; inversion H as [|? e ? ents' Hp H']; subst.
+  - cbn [fold_left upsert_all length]. f_equal. lia.
+  - cbn [fold_left]. rewrite (load_step_some l t line e Hp). rewrite (IH ents' _ _ H').
+    cbn [upsert_all fold_left length]. f_equal. lia.
+Qed.
+
+Lemma Forall2_render es :
+  Forall wf_entry es -> Forall2 (fun line e => parse_line line = Some e) (map render_body es) es.
+Proof.
+  induction es as [|e es IH]; intros H; [constructor|].
+  inversion H as [|? ? He Hes]; subst. cbn [map]. constructor; [apply parse_render; assumption|].
+  apply IH; assumption.
+Qed.
+
+(* ========================================================================================== *)
+(** * E. Files written by ninja: header + records *)
+
+Definition header_line : bytes := [35; 32; 110; 105; 110; 106; 97; 32; 108; 111; 103; 32; 118; 55].
+
+Lemma log_header_eq : log_header = header_line ++ [10].
+Proof. vm_compute. reflexivity. Qed.
+
+Lemma length_log_header : length log_header = 15%nat.
+Proof. vm_compute. reflexivity. Qed.
+
+Lemma parse_header_line : parse_line header_line = None.
+Proof. vm_compute. reflexivity. Qed.
+
+Lemma scan_header rest : scan_signature (log_header ++ rest) = 7%Z.
+Proof. rewrite log_header_eq. vm_compute. reflexivity. Qed.
+
+Lemma load_buf_size_ge : (15 <= load_buf_size)%nat.
+Proof. unfold load_buf_size. lia. Qed.
+
+Definition fits (B : nat) (e : entry) : Prop := (length (render_entry e) <= B)%nat.
+
+Definition needs_of (ents : list entry) : bool :=
+  needs_recompaction_of (N.of_nat (length (last_wins ents))) (N.of_nat (length ents)).
+
+(* what a well-formed log holding the records [ents] (in file order) loads as *)
+Definition loaded (ents : list entry) : load_res := LOk (last_wins ents) (needs_of ents).
+
+Lemma concat_render es : concat (map render_entry es) = join_lines (map render_body es).
+Proof. unfold join_lines. rewrite map_map. reflexivity. Qed.
+
+Lemma short_header B : (15 <= B)%nat -> short_line B header_line.
+Proof. intros H. split; [reflexivity|]. cbn [header_line length]. lia. Qed.
+
+Lemma short_body B e : wf_entry e -> fits B e -> short_line B (render_body e).
+Proof.
+  intros Hwf Hf. destruct (wf_entry_inv e Hwf) as (_ & _ & _ & Hnl & _).
+  split; [apply render_body_no_nl; assumption|].
+  unfold fits, render_entry in Hf. rewrite app_length in Hf. cbn [length] in Hf. lia.
+Qed.
+
+Lemma short_bodies B es :
+  Forall wf_entry es -> Forall (fits B) es -> Forall (short_line B) (map render_body es).
+Proof.
+  induction es as [|e es IH]; intros Hw Hf; [constructor|].
+  inversion Hw; inversion Hf; subst. cbn [map]. constructor; [apply short_body; assumption|].
+  apply IH; assumption.
+Qed.
+
+(* the work horse: header, then lines that parse, then an unterminated tail *)
+Lemma load_header_lines B lines ents (frag : bytes) :
+  (15 <= B)%nat -> Forall (short_line B) lines ->
+  Forall2 (fun line e => parse_line line = Some e) lines ents ->
+  no_byte 10 frag = true -> (length frag <= B)%nat ->
+  load_log_buf B (log_header ++ join_lines lines ++ frag) = loaded ents.
+Proof.
+  intros HB Hsh Hp Hnl Hlen.
+  replace (log_header ++ join_lines lines ++ frag)
+    with (join_lines (header_line :: lines) ++ frag)
+    by (rewrite join_lines_cons, log_header_eq, <- app_assoc; reflexivity).
+  rewrite load_short_lines; [|lia|constructor; [apply short_header; assumption|assumption]
+                              |assumption|assumption].
+  rewrite match_nonempty by (rewrite join_lines_cons; discriminate).
+  replace (join_lines (header_line :: lines) ++ frag)
+    with (log_header ++ join_lines lines ++ frag)
+    by (rewrite join_lines_cons, log_header_eq, <- app_assoc; reflexivity).
+  rewrite firstn_app, (firstn_all2 log_header) by (rewrite length_log_header; lia).
+  rewrite scan_header. unfold load_spec_res.
+  change (7 <? oldest_supported_version)%Z with false.
+  change (current_version <? 7)%Z with false. cbn iota.
+  cbn [fold_left]. rewrite (load_step_none _ _ parse_header_line).
+  change la_empty with (acc_of [] 0). rewrite (fold_load_step lines ents [] 0 Hp).
+  unfold load_finish, acc_of, loaded, needs_of, last_wins. cbn [la_entries la_unique la_total].
+  change (7 <? current_version)%Z with false. cbn [orb]. reflexivity.
+Qed.
+
+(* ---- torn files: which records are complete, what the tail is ---- *)
+
+Lemma no_byte_firstn b n (s : bytes) : no_byte b s = true -> no_byte b (firstn n s) = true.
+Proof.
+  revert n. induction s as [|c s IH]; intros n H; [rewrite firstn_nil; reflexivity|].
+  destruct n as [|n]; [reflexivity|]. cbn [firstn]. rewrite no_byte_cons in *.
+  rewrite IH by lia. lia.
+Qed.
+
+Lemma firstn_records a : forall es,
+  firstn a (concat (map render_entry es)) =
+  concat (map render_entry (complete_prefix_from a es)) ++ torn_fragment_from a es.
+Proof.
+  intros es. revert a. induction es as [|e es IH]; intros a.
+  - cbn. rewrite firstn_nil. reflexivity.
+  - cbn [map concat complete_prefix_from torn_fragment_from].
+    destruct (Nat.leb_spec (length (render_entry e)) a) as [Hle|Hgt].
+    + rewrite firstn_app, firstn_all2 by lia. cbn [map concat]. rewrite IH, <- app_assoc. reflexivity.
+    + rewrite firstn_app. replace (a - length (render_entry e))%nat with 0%nat by lia.
+      cbn [firstn map concat app]. apply app_nil_r.
+Qed.
+
+Lemma torn_fragment_ok B a : forall es,
+  Forall wf_entry es -> Forall (fits B) es ->
+  no_byte 10 (torn_fragment_from a es) = true /\ (length (torn_fragment_from a es) <= B)%nat.
+Proof.
+  intros es. revert a. induction es as [|e es IH]; intros a Hw Hf.
+  - split; [reflexivity|cbn; lia].
+  - inversion Hw as [|? ? Hwe Hw']; inversion Hf as [|? ? Hfe Hf']; subst.
+    cbn [torn_fragment_from].
+    destruct (Nat.leb_spec (length (render_entry e)) a) as [Hle|Hgt]; [apply IH; assumption|].
+    unfold render_entry in *. rewrite app_length in Hgt. cbn [length] in Hgt.
+    rewrite firstn_app. replace (a - length (render_body e))%nat with 0%nat by lia.
+    cbn [firstn]. rewrite app_nil_r. split.
+    + apply no_byte_firstn, render_body_no_nl.
+      destruct (wf_entry_inv e Hwe) as (_ & _ & _ & Hnl & _). assumption.
+    + rewrite firstn_length. unfold fits, render_entry in Hfe. rewrite app_length in Hfe.
+      cbn [length] in Hfe. lia.
+Qed.
+
+Lemma complete_prefix_Forall (P : entry -> Prop) a : forall es,
+  Forall P es -> Forall P (complete_prefix_from a es).
+Proof.
+  intros es. revert a. induction es as [|e es IH]; intros a H; [constructor|].
+  inversion H; subst. cbn [complete_prefix_from].
+  destruct (length (render_entry e) <=? a)%nat; [constructor; [assumption|apply IH; assumption]|constructor].
+Qed.
+
+(* a file cut at k >= 15 bytes *)
+Lemma firstn_file k es :
+  (15 <= k)%nat ->
+  firstn k (log_header ++ concat (map render_entry es)) =
+  log_header ++ join_lines (map render_body (complete_prefix k es)) ++ torn_fragment k es.
+Proof.
+  intros Hk. rewrite firstn_app, (firstn_all2 log_header) by (rewrite length_log_header; lia).
+  rewrite firstn_records, concat_render. unfold complete_prefix, torn_fragment. reflexivity.
+Qed.
+
+(* ---------------------------------------------------------------------------------------- *)
+(** ** C08_roundtrip *)
+
+Theorem C08_roundtrip_buf B es :
+  (15 <= B)%nat -> Forall wf_entry es -> Forall (fits B) es ->
+  load_log_buf B (log_header ++ concat (map render_entry es)) = loaded es.
+Proof.
+  intros HB Hw Hf. rewrite concat_render.
+  rewrite <- (app_nil_r (join_lines (map render_body es))).
+  apply load_header_lines; [assumption|apply short_bodies; assumption|apply Forall2_render; assumption
+                           |reflexivity|cbn; lia].
+Qed.
+
+Theorem C08_roundtrip es :
+  Forall wf_entry es -> Forall (fits load_buf_size) es ->
+  load_log (log_header ++ concat (map render_entry es)) =
+  LOk (last_wins es)
+      (needs_recompaction_of (N.of_nat (length (last_wins es))) (N.of_nat (length es))).
+Proof. apply C08_roundtrip_buf, load_buf_size_ge. Qed.
+
+(* ---------------------------------------------------------------------------------------- *)
+(** ** C08_torn *)
+
+(* an unterminated small file *)
+Lemma load_small B (frag : bytes) :
+  (0 < B)%nat -> no_byte 10 frag = true -> (length frag <= B)%nat ->
+  load_log_buf B frag =
+  match frag with [] => LOk [] false | _ :: _ => load_spec_res (scan_signature frag) la_empty end.
+Proof.
+  intros HB Hnl Hlen.
+  pose proof (load_short_lines B [] frag HB (Forall_nil _) Hnl Hlen) as H.
+  cbn [join_lines map concat app fold_left] in H. rewrite H.
+  rewrite firstn_all2 by lia. reflexivity.
+Qed.
+
+(* what Load does with a log cut inside the signature line (k < 15):
+   k = 0: empty file, LOAD_SUCCESS with no entries;
+   0 < k < 14: sscanf finds no version, log_version stays 0 < 7: "too old", file unlinked;
+   k = 14: "# ninja log v7" without newline: version 7 accepted, no entries. *)
+Definition torn_header_result (k : nat) : load_res :=
+  if (k =? 0)%nat then LOk [] false
+  else if (k <? 14)%nat then LDiscard true true
+  else LOk [] false.
+
+Lemma torn_header_buf B k (rest : bytes) :
+  (15 <= B)%nat -> (k < 15)%nat ->
+  load_log_buf B (firstn k (log_header ++ rest)) = torn_header_result k.
+Proof.
+  intros HB Hk. rewrite log_header_eq. unfold header_line.
+  do 15 (destruct k as [|k];
+         [cbn [app firstn]; rewrite load_small;
+          [vm_compute; reflexivity|lia|reflexivity|cbn [length]; lia]|]).
+  lia.
+Qed.
+
+Theorem C08_torn_buf B es k :
+  (15 <= B)%nat -> Forall wf_entry es -> Forall (fits B) es ->
+  load_log_buf B (firstn k (log_header ++ concat (map render_entry es))) =
+  if (k <? length log_header)%nat then torn_header_result k
+  else loaded (complete_prefix k es).
+Proof.
+  intros HB Hw Hf. rewrite length_log_header.
+  destruct (Nat.ltb_spec k 15) as [Hk|Hk]; [apply torn_header_buf; assumption|].
+  rewrite firstn_file by assumption.
+  destruct (torn_fragment_ok B (k - length log_header) es Hw Hf) as [Hnl Hlen].
+  apply load_header_lines; try assumption.
+  - apply short_bodies; apply complete_prefix_Forall; assumption.
+  - apply Forall2_render. apply complete_prefix_Forall; assumption.
+Qed.
+
+Theorem C08_torn es k :
+  Forall wf_entry es -> Forall (fits load_buf_size) es ->
+  load_log (firstn k (log_header ++ concat (map render_entry es))) =
+  if (k <? length log_header)%nat then torn_header_result k
+  else LOk (last_wins (complete_prefix k es))
+           (needs_recompaction_of (N.of_nat (length (last_wins (complete_prefix k es))))
+                                  (N.of_nat (length (complete_prefix k es)))).
+Proof. apply C08_torn_buf, load_buf_size_ge. Qed.
+
+(* ---------------------------------------------------------------------------------------- *)
+(** ** Appending after a torn tail: the merged line *)
+
+Lemma parse_line_fields (f1 f2 f3 f4 r : bytes) :
+  no_byte 9 f1 = true -> no_byte 9 f2 = true -> no_byte 9 f3 = true -> no_byte 9 f4 = true ->
+  parse_line (f1 ++ 9 :: f2 ++ 9 :: f3 ++ 9 :: f4 ++ 9 :: r) =
+  Some {| e_out := f4; e_start := c_atoi f1; e_end := c_atoi f2; e_mtime := c_strtoll f3;
+          e_hash := c_strtoull16 r |}.
+Proof.
+  intros H1 H2 H3 H4. unfold parse_line. rewrite !split_tab_app by assumption. reflexivity.
+Qed.
+
+Lemma split_tabs_spec (s : bytes) :
+  exists g gs, split_tabs s = g :: gs /\ s = g ++ concat (map (fun x => 9 :: x) gs) /\
+               no_byte 9 g = true /\ Forall (fun x => no_byte 9 x = true) gs.
+Proof.
+  induction s as [|c s IH].
+  - exists [], []. repeat split. constructor.
+  - destruct IH as (g & gs & Hs & Heq & Hg & Hgs). cbn [split_tabs].
+    destruct (N.eqb_spec c 9) as [->|Hc].
+    + exists [], (g :: gs). rewrite Hs. repeat split.
+      * cbn [map concat app]. f_equal. exact Heq.
+      * constructor; assumption.
+    + rewrite Hs. exists (c :: g), gs. repeat split.
+      * cbn [app]. f_equal. exact Heq.
+      * rewrite no_byte_cons, Hg. destruct (N.eqb_spec c 9); [contradiction|reflexivity].
+      * assumption.
+Qed.
+
+Ltac norm_app :=
+  repeat (rewrite <- app_assoc || rewrite <- app_comm_cons || rewrite app_nil_r || rewrite app_nil_l).
+
+(* the glued line always has at least four tabs, hence always yields exactly one entry: the one
+   described by [merged_line_entry] *)
+Lemma merged_parse (frag : bytes) e' :
+  no_byte 9 (e_out e') = true ->
+  exists x, merged_line_entry frag e' = [x] /\ parse_line (frag ++ render_body e') = Some x.
+Proof.
+  intros Hout.
+  destruct (split_tabs_spec frag) as (g0 & gs & Hs & Hfrag & Hg0 & Hgs).
+  unfold merged_line_entry, render_body. rewrite Hs. rewrite Hfrag. clear Hs Hfrag.
+  assert (Hs' : no_byte 9 (print_dec_Z (e_start e')) = true) by (apply print_dec_Z_no_byte; lia).
+  assert (Hn' : no_byte 9 (print_dec_Z (e_end e')) = true) by (apply print_dec_Z_no_byte; lia).
+  assert (Hm' : no_byte 9 (print_dec_Z (e_mtime e')) = true) by (apply print_dec_Z_no_byte; lia).
+  assert (Ho' : no_byte 9 (c_str (e_out e')) = true) by (apply c_str_no_byte; assumption).
+  set (s' := print_dec_Z (e_start e')) in *. set (n' := print_dec_Z (e_end e')) in *.
+  set (m' := print_dec_Z (e_mtime e')) in *. set (o' := c_str (e_out e')) in *.
+  set (h' := print_hex_N (e_hash e')).
+  destruct gs as [|g1 [|g2 [|g3 [|g4 gs']]]].
+  - eexists. split; [reflexivity|]. cbn [map concat]. norm_app.
+    rewrite (app_assoc g0 s'). apply parse_line_fields; try assumption.
+    rewrite no_byte_app, Hg0, Hs'. reflexivity.
+  - inversion Hgs as [|? ? Hg1 _]; subst.
+    eexists. split; [reflexivity|]. cbn [map concat]. norm_app.
+    rewrite (app_assoc g1 s'). apply parse_line_fields; try assumption.
+    rewrite no_byte_app, Hg1, Hs'. reflexivity.
+  - inversion Hgs as [|? ? Hg1 Hgs1]; subst. inversion Hgs1 as [|? ? Hg2 _]; subst.
+    eexists. split; [reflexivity|]. cbn [map concat]. norm_app.
+    rewrite (app_assoc g2 s'). apply parse_line_fields; try assumption.
+    rewrite no_byte_app, Hg2, Hs'. reflexivity.
+  - inversion Hgs as [|? ? Hg1 Hgs1]; subst. inversion Hgs1 as [|? ? Hg2 Hgs2]; subst.
+    inversion Hgs2 as [|? ? Hg3 _]; subst.
+    eexists. split; [reflexivity|]. cbn [map concat]. norm_app.
+    rewrite (app_assoc g3 s'). apply parse_line_fields; try assumption.
+    rewrite no_byte_app, Hg3, Hs'. reflexivity.
+  - inversion Hgs as [|? ? Hg1 Hgs1]; subst. inversion Hgs1 as [|? ? Hg2 Hgs2]; subst.
+    inversion Hgs2 as [|? ? Hg3 Hgs3]; subst.
+    eexists. split; [reflexivity|]. cbn [map concat]. norm_app.
+    apply parse_line_fields; assumption.
+Qed.
+
+(* a cut exactly at a record boundary: nothing is merged, the next record is read as written *)
+Lemma merged_boundary e' : wf_entry e' -> merged_line_entry [] e' = [e'].
+Proof.
+  intros Hwf. destruct (wf_entry_inv e' Hwf) as (_ & H0 & _ & _ & Hs & He & Hm & Hh).
+  unfold merged_line_entry. cbn [split_tabs app].
+  rewrite !atoi_print0, strtoll_print0, strtoull16_print, c_str_id by assumption.
+  destruct e'; reflexivity.
+Qed.
+
+Lemma record_append_nonempty (f : bytes) es :
+  f <> [] -> record_append f es = f ++ concat (map render_entry es).
+Proof. intros H. unfold record_append. destruct f; [congruence|reflexivity]. Qed.
+
+Lemma Forall2_app_parse l1 e1 l2 e2 :
+  Forall2 (fun line e => parse_line line = Some e) l1 e1 ->
+  Forall2 (fun line e => parse_line line = Some e) l2 e2 ->
+  Forall2 (fun line e => parse_line line = Some e) (l1 ++ l2) (e1 ++ e2).
+Proof. apply Forall2_app. Qed.
+
+Theorem C08_append_after_tear_buf B es k e' tl :
+  (15 <= B)%nat -> Forall wf_entry es -> Forall (fits B) es ->
+  Forall wf_entry (e' :: tl) -> Forall (fits B) tl ->
+  (length (torn_fragment k es) + length (render_entry e') <= B)%nat ->
+  (length log_header <= k)%nat ->
+  load_log_buf B (record_append (firstn k (log_header ++ concat (map render_entry es))) (e' :: tl)) =
+  loaded (complete_prefix k es ++ merged_line_entry (torn_fragment k es) e' ++ tl).
+Proof.
+  intros HB Hw Hf Hw' Hftl Hmerged Hk. rewrite length_log_header in Hk.
+  inversion Hw' as [|? ? Hwe' Hwtl]; subst.
+  rewrite firstn_file by assumption.
+  rewrite record_append_nonempty by (rewrite log_header_eq; discriminate).
+  destruct (wf_entry_inv e' Hwe') as (_ & _ & H9 & Hnl' & _).
+  destruct (merged_parse (torn_fragment k es) e' H9) as (x & Hx & Hpx).
+  rewrite Hx.
+  destruct (torn_fragment_ok B (k - length log_header) es Hw Hf) as [Hnl _].
+  fold (torn_fragment k es) in Hnl.
+  set (frag := torn_fragment k es) in *. set (cp := complete_prefix k es).
+  replace ((log_header ++ join_lines (map render_body cp) ++ frag) ++
+           concat (map render_entry (e' :: tl)))
+    with (log_header ++
+          join_lines (map render_body cp ++ [frag ++ render_body e'] ++ map render_body tl) ++ []).
+  2:{ rewrite !join_lines_app. cbn [map concat]. rewrite concat_render. unfold render_entry.
+      unfold join_lines at 2. cbn [map concat]. norm_app. reflexivity. }
+  apply load_header_lines; [assumption| | |reflexivity|cbn; lia].
+  - apply Forall_app. split; [apply short_bodies; apply complete_prefix_Forall; assumption|].
+    apply Forall_app. split; [|apply short_bodies; assumption].
+    constructor; [|constructor]. split.
+    + rewrite no_byte_app, Hnl, render_body_no_nl by assumption. reflexivity.
+    + unfold render_entry in Hmerged. rewrite !app_length in *. cbn [length] in Hmerged. lia.
+  - apply Forall2_app_parse; [apply Forall2_render, complete_prefix_Forall; assumption|].
+    apply Forall2_app_parse; [|apply Forall2_render; assumption].
+    constructor; [assumption|constructor].
+Qed.
+
+Theorem C08_append_after_tear es k e' tl :
+  Forall wf_entry es -> Forall (fits load_buf_size) es ->
+  Forall wf_entry (e' :: tl) -> Forall (fits load_buf_size) tl ->
+  (length (torn_fragment k es) + length (render_entry e') <= load_buf_size)%nat ->
+  (length log_header <= k)%nat ->
+  let ents := complete_prefix k es ++ merged_line_entry (torn_fragment k es) e' ++ tl in
+  load_log (record_append (firstn k (log_header ++ concat (map render_entry es))) (e' :: tl)) =
+  LOk (last_wins ents)
+      (needs_recompaction_of (N.of_nat (length (last_wins ents))) (N.of_nat (length ents))).
+Proof. intros. apply C08_append_after_tear_buf; try assumption. apply load_buf_size_ge. Qed.
